@@ -425,5 +425,27 @@ def zipReplace (a1 a2 : Arr) (it : ArrIter) (x y : Nat) (m : Mem) :
   let r2 := a2.replaceAt y (wdec it.index) r1.2.2.2
   (.ok, some (r1.2.1.getD 0, r2.2.1.getD 0), r1.2.2.1, r2.2.2.1, r2.2.2.2)
 
+/-! ## zip-iterator programs -/
+
+open Spec.Seq (ZipOp ZOut) in
+def zipStep (a1 a2 : Arr) (it : ArrIter) (op : ZipOp) (m : Mem) : ZOut × Arr × Arr × ArrIter × Mem :=
+  match op with
+  | .next => let r := zipNext a1 a2 it m; ({ st := some r.1, val := r.2.1 }, a1, a2, r.2.2.1, r.2.2.2)
+  | .remove => let r := zipRemove a1 a2 it m
+    ({ st := some r.1, val := r.2.1 }, r.2.2.1, r.2.2.2.1, r.2.2.2.2.1, r.2.2.2.2.2)
+  | .add x y => let r := zipAdd a1 a2 it x y m; ({ st := some r.1 }, r.2.1, r.2.2.1, r.2.2.2.1, r.2.2.2.2)
+  | .replace x y => let r := zipReplace a1 a2 it x y m
+    ({ st := some r.1, val := r.2.1 }, r.2.2.1, r.2.2.2.1, it, r.2.2.2.2)
+  | .index => ({ idx := some (iterIndex it) }, a1, a2, it, m)
+
+open Spec.Seq (ZipOp ZOut) in
+def zipRun (a1 a2 : Arr) (it : ArrIter) (ops : List ZipOp) (m : Mem) : List ZOut × Arr × Arr × ArrIter × Mem :=
+  match ops with
+  | [] => ([], a1, a2, it, m)
+  | op :: ops =>
+    let s := zipStep a1 a2 it op m
+    let rs := zipRun s.2.1 s.2.2.1 s.2.2.2.1 ops s.2.2.2.2
+    (s.1 :: rs.1, rs.2.1, rs.2.2.1, rs.2.2.2.1, rs.2.2.2.2)
+
 end Arr
 end CC
